@@ -7,9 +7,13 @@ type nat =
 
 val fst : ('a1 * 'a2) -> 'a1
 
+val snd : ('a1 * 'a2) -> 'a2
+
 val length : 'a1 list -> nat
 
 val app : 'a1 list -> 'a1 list -> 'a1 list
+
+val add : nat -> nat -> nat
 
 type positive =
 | XI of positive
@@ -199,3 +203,78 @@ val run_ref : stmt -> eobj list -> nat option -> nat option -> oc * state
 
 val run_sch :
   bool -> bool -> stmt -> eobj list -> nat option -> nat option -> oc * state
+
+type label = nat
+
+type cgs = { g_err : label; g_ret : label; g_brk : label; g_cont : label;
+             g_next : label }
+
+val set_err : label -> cgs -> cgs
+
+val set_ret : label -> cgs -> cgs
+
+val bump : nat -> cgs -> cgs
+
+val restore : cgs -> cgs -> cgs
+
+type trylabels = { t_our_err : label; t_exc_err : label; t_exc_ret : 
+                   label; t_try_ret : label; t_try_brk : label;
+                   t_try_cont : label; t_old_err : label; t_old_ret : 
+                   label; t_old_brk : label; t_old_cont : label }
+
+type finlabels = { f_new_cont : label; f_new_brk : label; f_new_ret : 
+                   label; f_new_err : label; f_ex_cont : label;
+                   f_ex_brk : label; f_ex_ret : label; f_ex_err : label;
+                   f_old_cont : label; f_old_brk : label; f_old_ret : 
+                   label; f_old_err : label }
+
+type lcode =
+| LSkip
+| LLog of nat * label
+| LProbe of label
+| LRaise of what * cause * label
+| LReraise of label
+| LGoto of label
+| LSeq of lcode * lcode
+| LTry of trylabels * lcode * lhandlers * lcode
+| LFinally of bool * finlabels * lcode * lcode * lcode * lcode * lcode * lcode
+| LLoop of nat * label * label * lcode
+| LDel of nat
+| LWithScope of nat * label * lcode
+| LExitExc of nat * exitk * label
+| LExitNone of nat * exitk * label
+and lhandlers =
+| LHNil
+| LHCons of nat option * nat option * bool * label * label * label * 
+   label * lcode * lhandlers
+
+val gen : bool -> cstmt -> cgs -> lcode * cgs
+
+val gen_h : bool -> chandlers -> cgs -> lhandlers * cgs
+
+type lx =
+| XFall
+| XJump of label * nat option
+| XCrash
+
+val err_to : label -> oc -> lx
+
+val try_exits : trylabels -> nat option -> lx -> state -> lx * state
+
+val fin_relabel : finlabels -> label -> label
+
+val fin_copy : (lx * state) -> label -> nat option -> lx * state
+
+val exec_lab : bool -> bool -> lcode -> state -> lx * state
+
+val handle_lab :
+  bool -> bool -> lhandlers -> nat -> trylabels -> nat option -> state ->
+  lx * state
+
+val g_fun : cgs
+
+val untr : cgs -> lx -> oc
+
+val run_lab :
+  bool -> bool -> bool -> stmt -> eobj list -> nat option -> nat option ->
+  oc * state
